@@ -12,12 +12,13 @@ from vlib import fbits, bitsf
 LEVEL_TEXT = ('Lean 4 theorems about the executable propagation-energy model at ℂ/ℝ: a unitary dft2 over one full period '
               '(α = 1/K, 1/L with K, L at least the input size, K ≠ L allowed, any integer offset and real shift) conserves Σ|·|²; '
               'an evaluated window only selects samples of the transform at integer frequency coordinates, so nested windows '
-              'capture 0 ≤ E(W₁) ≤ E(W₂) ≤ Σ|f|² and intensity is pointwise non-negative; normalize_power yields power p. The FFT '
-              'path is modelled (index maps of fftshift/ifftshift, unitary fft2 as a contract) and checked differentially.')
-LEVEL_NOTE = ('Partial: the identity "fftshift∘fft2(ortho)∘ifftshift = unitary dft2 with both origins at ⌊S/2⌋" (hence energy '
-              'conservation of the FFT propagator) is not proved, only checked by correspondence and oracle on even and odd grids; '
-              'energy of a *sum* of several fields is proved through linearity for fields given as one embedded array. Trusted: '
-              'np.fft.fft2(norm="ortho") is the unitary DFT with origin at index 0; np.dot/np.exp as in C01; rounding not modelled.')
+              'capture 0 ≤ E(W₁) ≤ E(W₂) ≤ Σ|f|² and intensity is pointwise non-negative; fftshift∘fft2(ortho)∘ifftshift equals the '
+              'centred unitary dft2 for even and odd sizes, so the FFT path conserves energy; normalize_power yields power p. '
+              'The same model is run at doubles against propagate_dft / propagate_fft / normalize_power on every check.')
+LEVEL_NOTE = ('Partial only in this sense: energy of a *sum* of several fields is proved for fields given as one embedded array '
+              '(several fields reduce to it by linearity, C03/C06, not restated here). Trusted: np.fft.fft2(norm="ortho") is the '
+              'unitary DFT with origin at index 0 and fftshift/ifftshift follow their documented index maps (contracts written in '
+              'Model/Energy.lean); np.dot/np.exp as in C01; floating-point rounding is not modelled.')
 TECHNIQUE = 'Lean 4 proof (roots-of-unity orthogonality, Finset sums) over a generic executable model + differential correspondence'
 GEN = []
 OPS = ['C01', 'C05']
@@ -30,11 +31,10 @@ RULE = ('cases: wavefronts of shape 1..5 x 1..5 (one full field, or 2-3 sub-fiel
 TRUSTED = ['np.fft.fft2(norm="ortho") is the unitary DFT with origin at index 0; np.fft.fftshift / ifftshift follow their documented '
            'index maps (modelled in Model/Energy.lean, observed through the correspondence)',
            'np.dot / np.exp / np.abs / np.sum as written in the model; Wavefront.intensity merges coincident output fields (C06)']
-UNPROVEN = ['fft_path_is_unitary_dft: that fftshift∘fft2(norm=ortho)∘ifftshift equals the centred unitary dft2 for even and odd sizes '
-            '(so that the FFT propagator conserves energy) has no theorem here; it is checked on every fft case against the model '
-            'and by the energy oracle',
-            'energy conservation is proved for one input array with an integer offset; for several fields it follows by '
-            'linearity only once they are written as one embedded array (C03/C06), which is not restated here']
+UNPROVEN = ['energy conservation is proved for one input array with an integer offset (and window monotonicity for any list of '
+            'fields); that several fields equal one embedded array follows by linearity (C03/C06) and is not restated here',
+            '"images to total p" for a normalised pupil is the composition normalize_power_power ∘ dft_full_period_energy through '
+            'Plane.multiply (C07), which is not modelled here; it is evaluated by the oracle']
 ASSUMPTIONS = ['commensurate sampling: 1/α is an integer number of samples per axis, at least the input size; output grid = one period',
                'fields carry no tilt; windows lie inside the full period']
 
